@@ -9,8 +9,6 @@ import (
 	"math/big"
 	"os"
 	"testing"
-
-	vmcommon "github.com/ElrondNetwork/elrond-vm-common"
 )
 
 func failFuzz(t *testing.T, prop, kind string, payload interface{}, sig, msg string) {
@@ -113,7 +111,7 @@ func fuzzArgs(b []byte, pool [][]byte, max int) [][]byte {
 func fuzzPool() [][]byte {
 	addrA, addrB := userAddr(0, 0), userAddr(1, 0)
 	pool := [][]byte{{}, {0}, {1}, {2}, {3}, []byte("FNG-a1b2c3"), []byte("SFT-0a0b0c"), []byte("NFT-112233"), []byte("FNG-a1b2c"), addrA, addrB, scAddr(0, 0), refESDTSC,
-		RefEncodeToken(&RefToken{Type: 1, Value: big.NewInt(3), Meta: &RefMeta{Nonce: 1, Name: []byte("n")}}), {0x08, 0x01}, []byte("accept"), []byte(vmcommon.ESDTRoleLocalMint), []byte(vmcommon.ESDTRoleNFTCreate)}
+		RefEncodeToken(&RefToken{Type: 1, Value: big.NewInt(3), Meta: &RefMeta{Nonce: 1, Name: []byte("n")}}), {0x08, 0x01}, []byte("accept"), []byte(refESDTRoleLocalMint), []byte(refESDTRoleNFTCreate)}
 	pool = append(pool, wrapResidues[:20]...)
 	return pool
 }
